@@ -88,6 +88,11 @@ CHECKS = {
     ref="DESIGN.md §3 C16",
     note="LazyContainer == Container not used as oracle. Negative indices and cross references excluded; Lazy(x) only over measurable x.",
     technique="model-based property testing over access histories; oracle = eager parse of the same bytes"),
+ "C17": dict(
+    text="Pools of constructs realised from generated specs, with one realised instance shared by a Struct, a Sequence and an Array parent, plus compiled forms, receive histories of 10-40 interleaved parse/build/sizeof/compile calls on valid, truncated, mutated and ill-typed inputs (also one invalid leaf in an otherwise valid value); every outcome must equal the outcome on a freshly realised never-used copy, and a structural snapshot of vars() of every pooled construct (and of every module-level singleton) must be unchanged afterwards. Entry points (parse on bytes/bytearray/memoryview, parse_stream at offsets 0..3, parse_file; build, build_stream at offsets, build_file) must agree. The same call plan run by 8 barrier-started threads with a 1 microsecond switch interval must reproduce the sequential outcomes.",
+    ref="DESIGN.md §3 C17",
+    note="The thread clause is best effort: the harness does not own the scheduler, so it can expose shared mutable attributes but not rule out rare interleavings. Rebuffered/Debugger excluded (documented mutable state). Compiled forms receive valid input only (generated code skips checks).",
+    technique="model-based property testing over call histories; oracle = fresh-copy differential + structural immutability snapshot; stress threads"),
 }
 
 NOT_APPLICABLE = [dict(property_id=p, reason="check not yet built in this revision of /verif (planned, see DESIGN.md §3)") for p in ALL if p not in CHECKS]
